@@ -68,7 +68,9 @@ COMPAT = {
 }
 
 
-def one_trace(rng, case, bname, parameter=True, observed=False):
+def one_trace(rng, case, bname, parameter=True, observed=False, via_copy=False, per_obs=True):
+    """via_copy: the assignments are made on a deep copy of the built model (what the Goose interface and
+    build_model(copy=True) work on); per_obs: the flag of the original distribution node."""
     dist_cls, pspec, x0 = CASES[case]
     mode, mk, bij_of = BIJ[bname]
     pvars, pvals = {}, {}
@@ -85,7 +87,8 @@ def one_trace(rng, case, bname, parameter=True, observed=False):
     pv_for_bij = {"__bv": bvar}
     x = lsl.Var(jnp.asarray(x0, jnp.float32), lsl.Dist(dist_cls, **kw), name="x")
     x.parameter, x.observed = parameter, observed
-    hdr = {"case": case, "bij": bname, "mode": mode, "has_dist": True, "parameter": parameter, "observed": observed,
+    x.dist_node.per_obs = per_obs
+    hdr = {"via_copy": via_copy, "per_obs": per_obs, "case": case, "bij": bname, "mode": mode, "has_dist": True, "parameter": parameter, "observed": observed,
            "weak": False}
 
     def orig_dist(vals):
@@ -123,6 +126,9 @@ def one_trace(rng, case, bname, parameter=True, observed=False):
         return {"hdr": hdr, "ev": [e]}
     if model is None:
         model = gb.add(xx, tv, bvar).build_model()
+    if via_copy:
+        import copy
+        model = copy.deepcopy(model)
     xx, tv = model.vars["x"], model.vars["x_transformed"]
 
     def flags():
@@ -133,7 +139,8 @@ def one_trace(rng, case, bname, parameter=True, observed=False):
     b = bij_now(pvals)
     t0 = b.inverse(jnp.asarray(x0, jnp.float32))
     e.update({"names": ["x", "x_transformed"], "flags": flags(), "orig_value": fl(xx.value), "new_value": fl(tv.value),
-              "new_log_prob": fsum(tv.log_prob),
+              "new_log_prob": fsum(tv.log_prob), "new_per_obs": bool(tv.dist_node.per_obs),
+              "new_lp_scalar": bool(np.ndim(tv.log_prob) == 0),
               "leaves": {"x": fl(x0), "t": fl(t0), "logp_b_t": fsum(orig_dist(pvals).log_prob(b.forward(t0))),
                          "fldj_t": fsum(fldj_total(b, t0))}})
     ev.append(e)
@@ -195,4 +202,11 @@ def all_traces(rng, reps=1):
         for bname in bs:
             for r in range(reps):
                 out.append(one_trace(rng, case, bname, parameter=(r % 2 == 0), observed=False))
+            if r == reps - 1 and (any(isinstance(v, tuple) for v in CASES[case][1].values()) or bname == "scale_class_var"):
+                # distribution / bijector parameters are variables: the same on a deep copy of the model
+                out.append(one_trace(rng, case, bname, via_copy=True))
+    # the original distribution stores its log-density summed (per_obs = False)
+    for case, bname in (("normal_vec", "scale_class_const"), ("normal_vec", "scale_class_var"), ("exponential", "default"),
+                        ("gamma_varparam", "auto"), ("halfcauchy", "gb_default")):
+        out.append(one_trace(rng, case, bname, per_obs=False))
     return out
